@@ -294,6 +294,15 @@ def run_lines(binary, args, lines, timeout=1200):
     return out, p.returncode
 
 
+def _limit_mem():
+    """address-space cap for implementation processes: a scanner that stops advancing may also grow its output without bound"""
+    import resource
+    try:
+        resource.setrlimit(resource.RLIMIT_AS, (6 << 30, 6 << 30))
+    except Exception:
+        pass
+
+
 def run_impl(cases, timeout_ms=10000, shards=8):
     """run cases through the harness (sharded over processes); a shard whose process dies
     (abort, stack overflow) is re-run case by case so that the culprit is identified"""
@@ -305,7 +314,7 @@ def run_impl(cases, timeout_ms=10000, shards=8):
     procs = []
     for ch in chunks:
         data = ('\n'.join(c.line() for c in ch) + '\n').encode()
-        p = subprocess.Popen([HARNESS_BIN, str(timeout_ms)], stdin=subprocess.PIPE, stdout=subprocess.PIPE, stderr=subprocess.DEVNULL)
+        p = subprocess.Popen([HARNESS_BIN, str(timeout_ms)], stdin=subprocess.PIPE, stdout=subprocess.PIPE, stderr=subprocess.DEVNULL, preexec_fn=_limit_mem)
         procs.append((p, ch, data))
     import threading
     outs = [None] * len(procs)
@@ -332,7 +341,7 @@ def run_impl(cases, timeout_ms=10000, shards=8):
         for c in missing:
             # re-run alone to classify
             try:
-                pp = subprocess.run([HARNESS_BIN, str(timeout_ms)], input=(c.line() + '\n').encode(), stdout=subprocess.PIPE, stderr=subprocess.DEVNULL, timeout=timeout_ms / 1000 + 30)
+                pp = subprocess.run([HARNESS_BIN, str(timeout_ms)], input=(c.line() + '\n').encode(), stdout=subprocess.PIPE, stderr=subprocess.DEVNULL, timeout=timeout_ms / 1000 + 30, preexec_fn=_limit_mem)
                 l = pp.stdout.decode('utf-8', 'replace').strip()
                 if l:
                     res[c.id] = l.split('\t')[1:]
